@@ -34,6 +34,7 @@ struct extractor_contract_3<Index<Idx0...>, Index<Idx1...>, Index<Idx2...> > {
 #ifndef FASTOR_KEEP_DP_FIXED
 
         constexpr int which_variant = cost_model::which_variant;
+        FASTOR_VERIF_ROUTE_V("network3.variant",which_variant);
 
         FASTOR_IF_CONSTEXPR (which_variant == 0) {
             auto tmp = einsum<Index<Idx0...>,Index<Idx1...>>(a,b);
@@ -98,6 +99,7 @@ struct extractor_contract_4<Index<Idx0...>, Index<Idx1...>, Index<Idx2...>, Inde
         using resulting_index_3 = typename cost_model::resulting_index_3;
 
         constexpr int which_variant = cost_model::which_variant;
+        FASTOR_VERIF_ROUTE_V("network4.variant",which_variant);
 
         FASTOR_IF_CONSTEXPR (which_variant==0) {
             auto tmp = einsum<Index<Idx0...>,Index<Idx1...>,Index<Idx2...>>(a,b,c);
@@ -178,6 +180,7 @@ struct extractor_contract_5<Index<Idx0...>, Index<Idx1...>, Index<Idx2...>, Inde
         using resulting_index_4 = typename cost_model::resulting_index_4;
 
         constexpr int which_variant = cost_model::which_variant;
+        FASTOR_VERIF_ROUTE_V("network5.variant",which_variant);
 
         FASTOR_IF_CONSTEXPR (which_variant==0) {
             auto tmp = einsum<Index<Idx0...>,Index<Idx1...>,Index<Idx2...>,Index<Idx3...>>(a,b,c,d);
@@ -247,6 +250,7 @@ struct extractor_contract_6<Index<Idx0...>, Index<Idx1...>, Index<Idx2...>, Inde
         using resulting_index_5 = typename cost_model::resulting_index_5;
 
         constexpr int which_variant = cost_model::which_variant;
+        FASTOR_VERIF_ROUTE_V("network6.variant",which_variant);
 
         FASTOR_IF_CONSTEXPR (which_variant==0) {
             auto tmp = einsum<Index<Idx0...>,Index<Idx1...>,Index<Idx2...>,Index<Idx3...>,Index<Idx4...>>(a,b,c,d,e);
